@@ -50,7 +50,7 @@ Lemma quot_in_range a b : in_range a -> in_range b -> b <> 0 ->
 Proof.
   unfold in_range, i64_min, i64_max. intros Ha Hb Hz Hn.
   assert (Habs : Z.abs (Z.quot a b) <= Z.abs a).
-  { rewrite Z.quot_abs by assumption.
+  { rewrite <- Z.quot_abs by assumption.
     apply Z.quot_le_upper_bound; try lia.
     assert (1 <= Z.abs b) by lia. nia. }
   destruct (Z.eq_dec a (- 2 ^ 63)) as [E|E].
@@ -59,9 +59,8 @@ Proof.
     + subst. rewrite Z.quot_1_r. lia.
     + assert (2 <= Z.abs b) by lia.
       assert (Z.abs (Z.quot (- 2 ^ 63) b) <= 2 ^ 62).
-      { rewrite Z.quot_abs by assumption.
-        apply Z.quot_le_upper_bound; try lia.
-        change (Z.abs (- 2 ^ 63)) with (2 * 2 ^ 62). nia. }
+      { rewrite <- Z.quot_abs by assumption.
+        apply Z.quot_le_upper_bound; try lia. }
       lia.
   - lia.
 Qed.
@@ -74,8 +73,8 @@ Proof.
   intros Ho.
   pose proof (Z.rem_bound_pos_pos) as _.
   destruct (Z.eqb (Z.rem s o) 0) eqn:E0; simpl.
-  - apply Z.eqb_eq in E0.
-    symmetry. apply Z.rem_divide in E0; auto. apply Z.mod_divide; auto.
+  - apply Z.eqb_eq in E0. rewrite E0.
+    symmetry. apply Z.mod_divide; auto. apply Z.rem_divide; auto.
   - apply Z.eqb_neq in E0.
     pose proof (Z.quot_rem' s o) as Hq.
     pose proof (Z.rem_sign_nz s o Ho E0) as Hs.
@@ -84,18 +83,18 @@ Proof.
     destruct (Z.rem s o <? 0) eqn:Er; destruct (o <? 0) eqn:Eo; simpl;
       try apply Z.ltb_lt in Er; try apply Z.ltb_ge in Er;
       try apply Z.ltb_lt in Eo; try apply Z.ltb_ge in Eo.
-    + symmetry. apply (Z.mod_unique_neg s o (Z.quot s o)); lia.
-    + symmetry. apply (Z.mod_unique_pos s o (Z.quot s o - 1)); lia.
-    + symmetry. apply (Z.mod_unique_neg s o (Z.quot s o - 1)); lia.
-    + symmetry. apply (Z.mod_unique_pos s o (Z.quot s o)); lia.
+    + apply (Z.mod_unique_neg s o (Z.quot s o)); lia.
+    + apply (Z.mod_unique_pos s o (Z.quot s o - 1)); lia.
+    + apply (Z.mod_unique_neg s o (Z.quot s o - 1)); lia.
+    + apply (Z.mod_unique_pos s o (Z.quot s o)); lia.
 Qed.
 
 Theorem mod_int a b : b <> 0 -> binop F OMod (Int a) (Int b) = Ok (Int (Z.modulo a b)).
 Proof.
   intros Hb. cbn. unfold int_mod.
   destruct (Z.eqb b (-1)) eqn:E1.
-  - apply Z.eqb_eq in E1. subst. rewrite Z.mod_opp_r_z; [reflexivity|lia|].
-    rewrite Z.mod_1_r. reflexivity.
+  - apply Z.eqb_eq in E1. subst.
+    assert (a mod -1 = 0) as -> by (pose proof (Z.mod_neg_bound a (-1)); lia). reflexivity.
   - destruct (Z.eqb b 0) eqn:E0; [apply Z.eqb_eq in E0; contradiction|].
     pose proof (rem_mod_adjust a b Hb) as H.
     destruct (negb (Z.eqb (Z.rem a b) 0) && negb (Bool.eqb (Z.rem a b <? 0) (b <? 0)));
@@ -124,21 +123,19 @@ Proof.
     cbn in H; inversion H; eexists; reflexivity.
 Qed.
 
-Theorem int_closed op a b r : binop F op (Int a) (Int b) = Ok r -> exists z, r = Int z /\ in_range z.
+Theorem int_closed op a b r : in_range b ->
+  binop F op (Int a) (Int b) = Ok r -> exists z, r = Int z /\ in_range z.
 Proof.
-  destruct op; cbn; unfold checked, int_mod;
-    repeat match goal with |- context[if ?c then _ else _] => destruct c eqn:? end;
-    intros H; inversion H; subst;
-    try (eexists; split; [reflexivity|apply in_i64_spec; assumption]).
-  - exists 0. split; [reflexivity|unfold in_range, i64_min, i64_max; lia].
-  - (* adjusted remainder *)
-    eexists; split; [reflexivity|].
-    assert (b <> 0) by (intros ->; discriminate).
-    pose proof (rem_mod_adjust a b H0) as Hm. rewrite Heqb2 in Hm. rewrite Hm.
-    (* the operands of a call are i64 values; here only the divisor's range matters *)
-    admit_placeholder.
-  - admit_placeholder.
-Abort.
+  intros Hb. destruct op; cbn; unfold checked.
+  1-3: destruct (in_i64 _) eqn:E; intros H; inversion H; subst;
+       eexists; split; [reflexivity|apply in_i64_spec; assumption].
+  - destruct (Z.eqb b 0); [discriminate|].
+    destruct (in_i64 _) eqn:E; intros H; inversion H; subst;
+      eexists; split; [reflexivity|apply in_i64_spec; assumption].
+  - intros H. destruct (Z.eq_dec b 0) as [->|Hz]; [discriminate H|].
+    pose proof (mod_int a b Hz) as Hm. cbn in Hm. rewrite Hm in H. inversion H; subst.
+    eexists; split; [reflexivity|apply mod_in_range; assumption].
+Qed.
 
 (* non-numbers are rejected, in either position *)
 Theorem non_number_rejected op a b : ~ is_num a \/ ~ is_num b -> 
@@ -155,17 +152,107 @@ Fixpoint fold_op (op : sx -> sx -> res sx) (acc : sx) (l : list sx) : res sx :=
   | x :: r => match op acc x with Ok a => fold_op op a r | e => e end
   end.
 
-(* ---- comparison chains --------------------------------------------- *)
-Fixpoint adjacent (c : cmp) (l : list Z) : bool :=
+(* numeric literals evaluate to themselves *)
+Definition numlit (x : sx) : bool := numberp x.
+
+Section Lits.
+Variable rec : task -> M sx.
+Hypothesis rec_lit : forall x s, numlit x = true -> rec (TEval x) s = (Ok x, s).
+
+Lemma reduce_rest_lits op : forall l acc s, forallb numlit l = true ->
+  reduce_rest rec op acc (of_list l Nil) s = (fold_op op acc l, s).
+Proof.
+  induction l as [|x l IH]; intros acc s Hl; simpl in *; [reflexivity|].
+  apply andb_true_iff in Hl as [Hx Hl]. unfold bind, ev. rewrite rec_lit by assumption.
+  unfold lift. destruct (op acc x); try reflexivity. apply IH; assumption.
+Qed.
+
+Lemma reduce_with_lits op a l s : forallb numlit (a :: l) = true ->
+  reduce_with rec op (of_list (a :: l) Nil) s = (fold_op op a l, s).
+Proof.
+  intros Hl. simpl in Hl. apply andb_true_iff in Hl as [Ha Hl].
+  unfold reduce_with. simpl. unfold bind, ev. rewrite rec_lit by assumption.
+  unfold numlit in Ha. rewrite Ha. rewrite andb_false_r.
+  apply reduce_rest_lits; assumption.
+Qed.
+
+(* a comparison chain over numeric literals holds exactly when every      *)
+(* adjacent pair does                                                      *)
+Fixpoint adjacent (c : cmp) (l : list sx) : res bool :=
   match l with
-  | x :: ((y :: _) as r) => cmp_int c x y && adjacent c r
-  | _ => true
+  | x :: ((y :: _) as r) =>
+      match compare2 F c x y, adjacent c r with
+      | Ok b1, Ok b2 => Ok (b1 && b2)
+      | Err e, _ | _, Err e => Err e
+      | _, _ => Fuel
+      end
+  | _ => Ok true
   end.
+
+Lemma compare2_num c x y : numlit x = true -> numlit y = true ->
+  exists b, compare2 F c x y = Ok b.
+Proof. destruct x, y; simpl; try discriminate; eauto. Qed.
+
+Lemma adjacent_num c : forall l, forallb numlit l = true -> exists b, adjacent c l = Ok b.
+Proof.
+  induction l as [|x l IH]; intros Hl; [simpl; eauto|].
+  simpl in Hl. apply andb_true_iff in Hl as [Hx Hl].
+  destruct l as [|y l]; [simpl; eauto|].
+  destruct (IH Hl) as [b2 E2]. simpl in Hl. apply andb_true_iff in Hl as [Hy _].
+  destruct (compare2_num c x y Hx Hy) as [b1 E1].
+  cbn [adjacent]. rewrite E1. cbn [adjacent] in E2. rewrite E2. eauto.
+Qed.
+
+Lemma compare_chain_lits c : forall l p holds s, forallb numlit (p :: l) = true ->
+  exists b, adjacent c (p :: l) = Ok b /\
+  compare_chain F rec c l (Some p) holds s = (Ok (of_bool (holds && b)), s).
+Proof.
+  induction l as [|x l IH]; intros p holds s Hl.
+  - exists true. simpl. rewrite andb_true_r. auto.
+  - pose proof Hl as Hl0. simpl in Hl. apply andb_true_iff in Hl as [Hp Hl].
+    pose proof Hl as Hl'. simpl in Hl'. apply andb_true_iff in Hl' as [Hx _].
+    destruct (compare2_num c p x Hp Hx) as [b1 E1].
+    destruct (IH x (holds && b1) s Hl) as (b2 & E2 & E3).
+    exists (b1 && b2). split.
+    + cbn [adjacent]. rewrite E1. cbn [adjacent] in E2. rewrite E2. reflexivity.
+    + cbn [compare_chain]. unfold bind, ev. rewrite rec_lit by assumption.
+      unfold numlit in Hx. rewrite Hx. cbn [negb].
+      destruct holds.
+      * unfold lift. rewrite E1. unfold ret. simpl in E3. rewrite E3.
+        rewrite andb_assoc. reflexivity.
+      * unfold ret. destruct (IH x false s Hl) as (b2' & E2' & E3'). rewrite E3'. reflexivity.
+Qed.
+
+End Lits.
 
 (* ---- max / min on integers ----------------------------------------- *)
 Theorem max_int a b : maxmin F true (Int a) (Int b) = Ok (Int (Z.max a b)).
 Proof. reflexivity. Qed.
 Theorem min_int a b : maxmin F false (Int a) (Int b) = Ok (Int (Z.min a b)).
 Proof. reflexivity. Qed.
+
+(* the n-ary maximum of integers is an argument and bounds every argument *)
+Lemma fold_max_int : forall l a, exists m,
+  fold_op (maxmin F true) (Int a) (map Int l) = Ok (Int m) /\
+  In m (a :: l) /\ Forall (fun x => x <= m) (a :: l).
+Proof.
+  induction l as [|x l IH]; intros a; simpl.
+  - exists a. split; [reflexivity|]. split; [auto|]. constructor; [lia|constructor].
+  - destruct (IH (Z.max a x)) as (m & E & Hin & Hall). exists m. split; [exact E|].
+    inversion Hall as [|? ? Hm Hl]; subst. split.
+    + destruct Hin as [Hin|Hin]; [|auto]. destruct (Z.max_spec a x) as [[_ Em]|[_ Em]]; rewrite Em in Hin; auto.
+    + constructor; [lia|]. constructor; [lia|assumption].
+Qed.
+Lemma fold_min_int : forall l a, exists m,
+  fold_op (maxmin F false) (Int a) (map Int l) = Ok (Int m) /\
+  In m (a :: l) /\ Forall (fun x => m <= x) (a :: l).
+Proof.
+  induction l as [|x l IH]; intros a; simpl.
+  - exists a. split; [reflexivity|]. split; [auto|]. constructor; [lia|constructor].
+  - destruct (IH (Z.min a x)) as (m & E & Hin & Hall). exists m. split; [exact E|].
+    inversion Hall as [|? ? Hm Hl]; subst. split.
+    + destruct Hin as [Hin|Hin]; [|auto]. destruct (Z.min_spec a x) as [[_ Em]|[_ Em]]; rewrite Em in Hin; auto.
+    + constructor; [lia|]. constructor; [lia|assumption].
+Qed.
 
 End WithFloat.
